@@ -78,7 +78,6 @@ __CPROVER_ensures (__CPROVER_return_value == __CPROVER_old (up[0]) << (64 - cnt)
 
 /* ---- comparison.  Ghost output g_hd: highest index where the operands differ (-1: none).
    Caller-chosen gj: "every position above g_hd is equal" is delivered at gj (forall-intro). */
-long g_hd;
 int __gmpn_cmp (mp_srcptr xp, mp_srcptr yp, mp_size_t n)
 __CPROVER_requires (0 <= n && n <= V_NMAX && V_R_OK (xp, n) && V_R_OK (yp, n))
 __CPROVER_assigns (g_hd)
